@@ -188,6 +188,8 @@ def matches_known(v, entry):
     if 'dangling reference' not in viol: return False
     if pat == 'paint_points_at_non_gradient':
         return any(re.search(r'<(pattern|mask|filter)\b[^>]*\bid="%s"' % re.escape(m), doc) for m in re.findall(r'url\(#([^)]+)\)', doc))
+    if pat == 'paint_reference_spelling':
+        return bool(re.search(r'fill="\s+url\(|fill="url\(\s*[\'\"]|fill:\s+url\(\s*[\'\"]', doc))
     if pat == 'gradient_inside_anonymous_symbol':
         return bool(re.search(r'<symbol(?![^>]*\bid=)[^>]*>(?:(?!</symbol>).)*Gradient', doc, re.S))
     return False
